@@ -26,6 +26,7 @@ import (
 	"sort"
 	"strings"
 	"sync"
+	"syscall"
 	"time"
 
 	"verif/harness/lib"
@@ -197,8 +198,25 @@ func raceSummary(skip int64) string {
 	return strings.Join(frames, ",")
 }
 
+// fatalMarker: some failures of isolation kill the process outright (the Go runtime throws
+// "concurrent map writes" / "all goroutines are asleep", which cannot be recovered). ./check
+// turns a dead harness into a VIOLATION only if the engine left runs/<ID>/fatal.json naming
+// the case, so the marker is written before every case and removed when the case returns.
+func fatalMarker(c *Case) func() {
+	dir := os.Getenv("VERIF_RUNDIR")
+	if dir == "" {
+		return func() {}
+	}
+	p := filepath.Join(dir, "fatal.json")
+	b, _ := json.Marshal(map[string]any{"case": c, "sig": "fatal:" + c.Kind,
+		"what": "the harness process died while this object was being called concurrently (unrecoverable Go runtime error such as 'concurrent map writes' or a global deadlock); see the harness output in the check log"})
+	_ = os.WriteFile(p, b, 0o644)
+	return func() { os.Remove(p) }
+}
+
 func (engine) Run(ci any) lib.Result {
 	c := ci.(*Case)
+	defer fatalMarker(c)()
 	tags := []string{"kind:" + c.Kind, fmt.Sprintf("callers:%d", c.G)}
 	raceBefore := raceBytes()
 	r := lib.NewRng(c.Seed)
@@ -472,4 +490,31 @@ func evDiff(want, got []string) string {
 	return strings.Join(parts, "; ")
 }
 
-func main() { lib.Main(engine{}) }
+// The race detector makes the process exit with status 66 when it reported anything
+// (tsan's default exitcode, applied at exit even with halt_on_error=0); ./check would
+// take that for an infrastructure failure before reading the race reports. Reports are
+// attributed to cases by this engine and read from the log files by ./check, so the exit
+// status must stay 0: re-exec once with exitcode=0 appended to GORACE.
+func reexecWithRaceExit0() {
+	g := os.Getenv("GORACE")
+	if g == "" || strings.Contains(g, "exitcode=") || os.Getenv("C09_REEXEC") != "" {
+		return
+	}
+	exe, err := os.Executable()
+	if err != nil {
+		return
+	}
+	var env []string
+	for _, kv := range os.Environ() {
+		if !strings.HasPrefix(kv, "GORACE=") {
+			env = append(env, kv)
+		}
+	}
+	env = append(env, "GORACE="+g+" exitcode=0", "C09_REEXEC=1")
+	_ = syscall.Exec(exe, os.Args, env)
+}
+
+func main() {
+	reexecWithRaceExit0()
+	lib.Main(engine{})
+}
